@@ -49,7 +49,9 @@ from ..gen import KEY_POOL, PREFIX, VALUES, hx, rng_for
 INIT = hist.INIT
 ENGINES = ["memkv", "badger", "tikv"]
 # range bounds of the form key+\x00: order facts (KB.Props.C10) lifted to the range read
-EXTRA_PROP_MODULES = [("KB.Props.C03Bounds", "KB.C03Bounds")]
+EXTRA_PROP_MODULES = [("KB.Props.C03Bounds", "KB.C03Bounds"),
+                      # the watch clause: one `canceled` per watch (the etcd watch server forgets a watch under the lock it found it under)
+                      ("KB.Props.OrderC05", "KB.OrderC05")]
 MAGIC = 1888
 COMPACT_KEY = b"compact_rev_key"
 
